@@ -38,7 +38,8 @@ def main(pid):
         o = obs[ix]
         bad = [l for l in o["lists"] if l["whole"] != l["seq"] or l["werr"] != l["serr"]][:2]
         vd.violation(cl, {"kind": "text", "classes": o["cls"], "text": "".join(map(chr, o["x"])), "lists": bad,
-                          "iw": o["iw"], "aw": o["aw"], "un": o["un"]}, {"clause": cl, "classes": "-".join(o["cls"])})
+                          "iw": o["iw"], "aw": o["aw"], "un": o["un"]}, {"clause": cl, "classes": "-".join(o["cls"])},
+                     judge=vlib.J("Trace_Clean", "Trace_Clean.cfg", o), rerun=vlib.R("drv_clean", "run_text", items[ix]))
     for ix, _ in drifts:
         vd.spec_drift("Clean", f"text classes {obs[ix]['cls']}")
     ev.sample({"classes": obs[len(obs) // 2]["cls"], "all_whitespace": obs[len(obs) // 2]["aw"]["f1"]})
@@ -49,7 +50,8 @@ def main(pid):
     for ix, cl in fails:
         o = hobs[ix]
         vd.violation(cl, {"kind": "html", "markup": o["markup"], "returned": "".join(map(chr, o["out"])), "raised": o["raised"]},
-                     {"clause": cl, "tags": "-".join(t.get("tag") or t["k"] for t in o["doc"])})
+                     {"clause": cl, "tags": "-".join(t.get("tag") or t["k"] for t in o["doc"])},
+                     judge=vlib.J("Trace_Clean", "Trace_Clean.cfg", o), rerun=vlib.R("drv_clean", "run_html", hitems[ix]))
     ev.sample({"markup": hobs[len(hobs) // 2]["markup"], "returned": "".join(map(chr, hobs[len(hobs) // 2]["out"]))})
     ev.cov["traces_validated_against_impl"] = total
     ev.cov["evaluations"] = total
